@@ -10,15 +10,17 @@
 (* the timing clauses are decidable from outside (clock advanced only at   *)
 (* quiescence with nothing in flight; no address rewriting).               *)
 (***************************************************************************)
-EXTENDS QSendMon, Json, IOUtils
+EXTENDS QSendLog, Json, IOUtils
 Runs == ndJsonDeserialize(IOEnv.RECORDS)
-VARIABLES r, l, st, bad
-vars == <<r, l, st, bad>>
+VARIABLES r, l, st, lg, bad
+vars == <<r, l, st, lg, bad>>
 
-Init == r \in 1..Len(Runs) /\ l = 1 /\ st = InitMon /\ bad = ""
+Init == r \in 1..Len(Runs) /\ l = 1 /\ st = InitMon /\ lg = LogInit /\ bad = ""
+\* the activity-record monitor (QSendLog) runs beside the main one when the history carries `log` events (Runs[r].log = 1)
 Next == /\ bad = "" /\ l <= Len(Runs[r].ev)
         /\ LET res == Step(st, Runs[r].ev[l], Runs[r].strict = 1)
-           IN st' = res.st /\ bad' = res.v
+               lres == IF Runs[r].log = 1 THEN LogStep(lg, st, Runs[r].ev[l]) ELSE LR(lg, "")
+           IN st' = res.st /\ lg' = lres.lg /\ bad' = (IF res.v # "" THEN res.v ELSE lres.v)
         /\ l' = l + 1 /\ UNCHANGED r
 Spec == Init /\ [][Next]_vars
 
